@@ -371,3 +371,33 @@ def types_corpus():
                           ("if", [(("atom", v("u"), "<", c(0)), [("assign", "w", P.det(("sub", c(0), v("w"))))])], None)]},
                 [], "negative-uniform"))
     return out
+
+
+def continuous_corpus():
+    """programs with continuous draws (validated at moment level: the flat program, Polar's
+    system and initial values against the wp model with the TRANSLATED moment formulas)"""
+    c, v, F = P.const, P.var, Fraction
+    out = []
+    cont = lambda fam, *args: ("draw", ("cont", fam, [c(a) if not isinstance(a, tuple) else a for a in args]))
+    init = lambda *xs: [("assign", x, P.det(c(k))) for x, k in xs]
+    inc = lambda z, e: ("assign", z, P.det(("add", v(z), e)))
+    out.append(({"types": [], "init": init(("x", 0), ("y", 0)), "guard": ("true",),
+                 "body": [("assign", "x", cont("Normal", 0, 1)), inc("y", ("mul", v("x"), v("x")))]}, [{"y": 1}, {"y": 2}], "normal"))
+    out.append(({"types": [], "init": init(("u", 0), ("s", 1), ("f", 0)), "guard": ("true",),
+                 "body": [("assign", "f", ("draw", ("bern", c(F(1, 3))))), ("assign", "u", cont("Uniform", 0, 2)),
+                          ("assign", "s", P.det(("add", ("mul", c(F(1, 2)), v("s")), ("mul", v("u"), v("f")))))]},
+                [{"s": 1}, {"s": 2}, {"s": 1, "u": 1}], "uniform*finite"))
+    out.append(({"types": [], "init": init(("x", 1), ("y", 0)), "guard": ("true",),
+                 "body": [("assign", "y", cont("Normal", v("x"), 4)), ("assign", "x", P.det(("mul", c(F(1, 2)), v("y"))))]},
+                [{"x": 1}, {"x": 2}], "normal-variable-mean"))
+    out.append(({"types": [], "init": init(("l", 0), ("w", 0), ("a", 0)), "guard": ("true",),
+                 "body": [("assign", "l", cont("Laplace", 1, 2)), ("assign", "w", cont("DistExp", F(1, 2))),
+                          inc("a", ("sub", ("mul", v("l"), v("w")), c(1)))]}, [{"a": 1}, {"a": 2}, {"l": 3}], "laplace+exponential"))
+    out.append(({"types": [], "init": init(("g", 0), ("b", 0), ("t", 0), ("c", 0)), "guard": ("atom", v("c"), "==", c(0)),
+                 "body": [("assign", "g", cont("Gamma", 2, F(1, 2))), ("assign", "b", cont("Beta", 2, 3)),
+                          ("if", [(("atom", v("c"), "==", c(0)), [inc("t", ("mul", v("g"), v("b")))])], None),
+                          ("assign", "c", ("draw", ("bern", c(F(1, 4)))))]}, [{"t": 1}, {"t": 2}], "gamma*beta+guard"))
+    out.append(({"types": [], "init": init(("x", 0), ("m", 0)), "guard": ("true",),
+                 "body": [("assign", "m", ("choice", [(c(F(1, 2)), c(0)), (c(F(1, 2)), c(2))])),
+                          ("assign", "x", cont("Uniform", v("m"), ("add", v("m"), c(1))))]}, [{"x": 1}, {"x": 2}, {"x": 1, "m": 1}], "uniform-variable-bounds"))
+    return out
